@@ -349,7 +349,13 @@ func CompileList(list List) (f Object) {
 		switch ta := list[0].(type) {
 		case Symbol:
 			name := strings.ToLower(string(ta))
-			if fi := CurrentPackage.funcs[name]; fi != nil {
+			fi := CurrentPackage.funcs[name]
+			if fi == nil && strings.Contains(name, ":") {
+				// A name with a package prefix is looked up in that package
+				// as it is when the call is not inside a compiled body.
+				fi = FindFunc(name)
+			}
+			if fi != nil {
 				f = fi.Create(list[1:])
 			} else {
 				lc := Lambda{
